@@ -333,6 +333,8 @@ def gen_elf(rng, big=False):
         k = rng.random()
         if k < 0.5:
             filesz = rng.randrange(1, 4) * pgsz
+        elif k < 0.65:
+            filesz = rng.randrange(1, 4) * pgsz - rng.choice([1, 1, 2, 7])   # ends just below a page end
         elif k < 0.8:
             filesz = rng.randrange(1, 3 * pgsz)
         elif k < 0.9:
@@ -388,7 +390,7 @@ def gen_elf(rng, big=False):
     phextra = rng.choice([0, 0, 0, 8, 24])
     off = (64 if w64 else 52) + phgap + ((56 if w64 else 32) + phextra) * len(segs)
     for s in segs:
-        s["gap"] = rng.choice([0, 0, 4, pgsz - 8, 100, 3])
+        s["gap"] = rng.choice([0, 0, 0, 0, 4, pgsz - 8, 100, 3])
         if s["type"] == 4:                      # the note parser reads 32-bit words in place
             s["gap"] += (-(off + s["gap"])) % 4
         off += s["gap"] + len(s["data"])
